@@ -3,4 +3,563 @@ From Coq Require Import List NArith Bool Lia ZArith ZifyN ZifyNat ZifyBool.
 From Verif.Base Require Import Bytes BytesProofs.
 From Verif.Codec Require Import Packets Decode Encode RefParse.
 From Verif.Checkers Require Import ChkCodec.
+From Verif.Codec Require Import EncodeProofs.
 Open Scope N_scope.
+Ltac Zify.zify_post_hook ::= Z.div_mod_to_equations.
+
+(* ------------------------------------------------------------------ finite sweep over one octet *)
+
+Lemma byte_sweep (P : N -> bool) :
+  forallb P (map N.of_nat (seq 0 256)) = true -> forall f, f < 256 -> P f = true.
+Proof.
+  intros H f Hf. rewrite forallb_forall in H. apply H.
+  apply in_map_iff. exists (N.to_nat f). split; [apply N2Nat.id|].
+  apply in_seq. lia.
+Qed.
+
+Ltac sweep_bool :=
+  let f := fresh "f" in let Hf := fresh "Hf" in
+  intros f Hf; apply eqb_prop; revert f Hf; apply byte_sweep; vm_compute; reflexivity.
+Ltac sweep_N :=
+  let f := fresh "f" in let Hf := fresh "Hf" in
+  intros f Hf; apply N.eqb_eq; revert f Hf; apply byte_sweep; vm_compute; reflexivity.
+
+Lemma bit128_dup : forall f, f < 256 -> bit f 128 = f_dup f.
+Proof. sweep_bool. Qed.
+Lemma bit16_retain : forall f, f < 256 -> bit f 16 = f_retain f.
+Proof. sweep_bool. Qed.
+Lemma bit8_will : forall f, f < 256 -> bit f 8 = f_will f.
+Proof. sweep_bool. Qed.
+Lemma bit4_clean : forall f, f < 256 -> bit f 4 = f_clean f.
+Proof. sweep_bool. Qed.
+Lemma div32_qos : forall f, f < 256 -> (f / 32) mod 4 = f_qos f.
+Proof. sweep_N. Qed.
+Lemma mod4_tit : forall f, f < 256 -> f mod 4 = f_tit f.
+Proof. sweep_N. Qed.
+
+Lemma connect_flags : forall f, f < 256 -> bN (bit f 8) 8 + bN (bit f 4) 4 = N.land f 12.
+Proof. sweep_N. Qed.
+Lemma will_flags : forall f, f < 256 -> qos_bits ((f / 32) mod 4) + bN (bit f 16) 16 = N.land f 112.
+Proof. sweep_N. Qed.
+Lemma publish_flags : forall f, f < 256 ->
+  pub_flags (bit f 128) ((f / 32) mod 4) (bit f 16) (f mod 4) = N.land f 243.
+Proof. sweep_N. Qed.
+Lemma subscribe_flags : forall f, f < 256 ->
+  bN (bit f 128) 128 + qos_bits ((f / 32) mod 4) + (f mod 4) mod 4 = N.land f 227.
+Proof. sweep_N. Qed.
+Lemma suback_flags : forall f, f < 256 -> qos_bits ((f / 32) mod 4) = N.land f 96.
+Proof. sweep_N. Qed.
+Lemma unsubscribe_flags : forall f, f < 256 -> (f mod 4) mod 4 = N.land f 3.
+Proof. sweep_N. Qed.
+
+(* ------------------------------------------------------------------ generic facts *)
+
+Lemma be16_w16 (hi lo : N) : be16 hi lo = w16 hi lo.
+Proof. unfold be16, w16. lia. Qed.
+
+Lemma enc16w_be16 (hi lo : N) : hi < 256 -> lo < 256 -> enc16w (be16 hi lo) = [hi; lo].
+Proof. intros Hh Hl. unfold enc16w, be16. f_equal; [|f_equal]; lia. Qed.
+
+Lemma wf_cons_inv (x : N) (l : bytes) : wf_bytes (x :: l) -> x < 256 /\ wf_bytes l.
+Proof.
+  unfold wf_bytes. intros H. inversion H as [|y l' Hx Hl]; subst.
+  split; [apply is_byte_lt, Hx|exact Hl].
+Qed.
+
+Lemma wf_app_inv (a b : bytes) : wf_bytes (a ++ b) -> wf_bytes a /\ wf_bytes b.
+Proof. unfold wf_bytes. apply Forall_app. Qed.
+
+(* the reference splitter on an encoded header followed by a variable part *)
+Lemma ref_split_hdr_eq (vl t : N) (b b' : bytes) :
+  t < 256 -> vl + 4 < 65536 -> b = b' -> ref_split (hdr vl t ++ b) = Some (t, b').
+Proof.
+  intros Ht Hv <-. destruct (N.le_gt_cases (vl + 2) 255) as [Hs|Hl].
+  - rewrite hdr_short by assumption. cbn [app ref_split].
+    destruct (N.eqb_spec (vl + 2) 1) as [E|_]; [lia|reflexivity].
+  - rewrite hdr_long by assumption. cbn [app ref_split N.eqb Pos.eqb]. reflexivity.
+Qed.
+
+Lemma ref_split_hdr0 (t : N) (b' : bytes) : t < 256 -> [] = b' -> ref_split (hdr 0 t) = Some (t, b').
+Proof.
+  intros Ht E. rewrite <- (app_nil_r (hdr 0 t)). apply ref_split_hdr_eq; [exact Ht|reflexivity|exact E].
+Qed.
+
+(* ------------------------------------------------------------------ per-type agreement *)
+
+(* what both C22 clauses say about one body *)
+Definition both (t : N) (body : bytes) (p : packet) : Prop :=
+  ref_body t body = Some p /\
+  (len body + 4 < 65536 -> ref_split (pack p) = Some (t, mask_ignored t body)).
+
+Ltac run_in H :=
+  cbn [lenb length Nat.ltb Nat.leb Nat.eqb negb obind idx get16 nth_error slice_from skipn] in H.
+
+Ltac wf_split :=
+  repeat match goal with
+         | H : wf_bytes (_ :: _) |- _ =>
+           let Hx := fresh "Hb" in apply wf_cons_inv in H; destruct H as [Hx H]
+         end.
+
+Ltac ref_side :=
+  cbn [ref_body N.eqb Pos.eqb];
+  rewrite ?be16_w16, ?bit128_dup, ?bit16_retain, ?bit8_will, ?bit4_clean, ?div32_qos, ?mod4_tit
+    by assumption;
+  reflexivity.
+
+Ltac pack_side :=
+  let Hlen := fresh "Hlen" in
+  intros Hlen; rewrite ?len_cons in Hlen;
+  cbn [pack];
+  first [ apply ref_split_hdr_eq; [reflexivity|rewrite ?len_cons; unfold u16; lia|]
+        | apply ref_split_hdr0; [reflexivity|] ];
+  rewrite ?u8_small, ?enc16w_be16, ?connect_flags, ?will_flags, ?publish_flags, ?suback_flags
+    by assumption;
+  reflexivity.
+
+Ltac finish H :=
+  wf_split; injection H as <-; split; [ref_side|pack_side].
+
+Lemma advertise_both body p : wf_bytes body ->
+  unpack_advertise body = Ok p -> both 0 body p.
+Proof.
+  intros Hwf H. unfold unpack_advertise in H.
+  destruct body as [|b0 [|b1 [|b2 [|b3 r]]]]; run_in H; try discriminate H.
+  finish H.
+Qed.
+
+Lemma searchgw_both body p : wf_bytes body ->
+  unpack_searchgw body = Ok p -> both 1 body p.
+Proof.
+  intros Hwf H. unfold unpack_searchgw in H.
+  destruct body as [|b0 [|b1 r]]; run_in H; try discriminate H.
+  finish H.
+Qed.
+
+Lemma gwinfo_both body p : wf_bytes body ->
+  unpack_gwinfo body = Ok p -> both 2 body p.
+Proof.
+  intros Hwf H. unfold unpack_gwinfo in H.
+  destruct body as [|b0 r]; run_in H; try discriminate H.
+  finish H.
+Qed.
+
+Lemma connect_both body p : wf_bytes body ->
+  unpack_connect body = Ok p -> both 4 body p.
+Proof.
+  intros Hwf H. unfold unpack_connect in H.
+  destruct body as [|f [|pr [|d1 [|d2 [|c cid]]]]]; run_in H; try discriminate H.
+  destruct (N.eqb_spec pr 1) as [E|E]; cbn [negb] in H; [subst pr|discriminate H].
+  finish H.
+Qed.
+
+Lemma connack_both body p : wf_bytes body ->
+  unpack_connack body = Ok p -> both 5 body p.
+Proof.
+  intros Hwf H. unfold unpack_connack in H.
+  destruct body as [|b0 [|b1 r]]; run_in H; try discriminate H.
+  finish H.
+Qed.
+
+Lemma willtopicreq_both body p : wf_bytes body ->
+  unpack_willtopicreq body = Ok p -> both 6 body p.
+Proof.
+  intros Hwf H. unfold unpack_willtopicreq in H.
+  destruct body as [|b0 r]; run_in H; try discriminate H.
+  finish H.
+Qed.
+
+Lemma willtopic_both body p : wf_bytes body ->
+  unpack_willtopic body = Ok p -> both 7 body p.
+Proof.
+  intros Hwf H. unfold unpack_willtopic in H.
+  destruct body as [|f [|c topic]]; run_in H; try discriminate H.
+  - finish H.
+  - wf_split. injection H as <-. split; [ref_side|].
+    intros Hlen; rewrite ?len_cons in Hlen.
+    cbn [pack]. rewrite varpart_pos by (rewrite ?len_cons; unfold u16; lia).
+    apply ref_split_hdr_eq; [reflexivity|rewrite ?len_cons; unfold u16; lia|].
+    rewrite will_flags by assumption. reflexivity.
+Qed.
+
+Lemma willmsgreq_both body p : wf_bytes body ->
+  unpack_willmsgreq body = Ok p -> both 8 body p.
+Proof.
+  intros Hwf H. unfold unpack_willmsgreq in H.
+  destruct body as [|b0 r]; run_in H; try discriminate H.
+  finish H.
+Qed.
+
+Lemma willmsg_both body p : wf_bytes body ->
+  unpack_willmsg body = Ok p -> both 9 body p.
+Proof.
+  intros Hwf H. unfold unpack_willmsg in H. finish H.
+Qed.
+
+Lemma register_both body p : wf_bytes body ->
+  unpack_register body = Ok p -> both 10 body p.
+Proof.
+  intros Hwf H. unfold unpack_register in H.
+  destruct body as [|t1 [|t2 [|m1 [|m2 [|c name]]]]]; run_in H; try discriminate H.
+  finish H.
+Qed.
+
+Lemma regack_both body p : wf_bytes body ->
+  unpack_regack body = Ok p -> both 11 body p.
+Proof.
+  intros Hwf H. unfold unpack_regack in H.
+  destruct body as [|t1 [|t2 [|m1 [|m2 [|rc [|x r]]]]]]; run_in H; try discriminate H.
+  finish H.
+Qed.
+
+Lemma publish_both body p : wf_bytes body ->
+  unpack_publish body = Ok p -> both 12 body p.
+Proof.
+  intros Hwf H. unfold unpack_publish in H.
+  destruct body as [|f [|t1 [|t2 [|m1 [|m2 data]]]]]; run_in H; try discriminate H.
+  finish H.
+Qed.
+
+Lemma puback_both body p : wf_bytes body ->
+  unpack_puback body = Ok p -> both 13 body p.
+Proof.
+  intros Hwf H. unfold unpack_puback in H.
+  destruct body as [|t1 [|t2 [|m1 [|m2 [|rc [|x r]]]]]]; run_in H; try discriminate H.
+  finish H.
+Qed.
+
+Lemma pubcomp_both body p : wf_bytes body ->
+  unpack_pubcomp body = Ok p -> both 14 body p.
+Proof.
+  intros Hwf H. unfold unpack_pubcomp in H.
+  destruct body as [|m1 [|m2 [|x r]]]; run_in H; try discriminate H.
+  finish H.
+Qed.
+
+Lemma pubrec_both body p : wf_bytes body ->
+  unpack_pubrec body = Ok p -> both 15 body p.
+Proof.
+  intros Hwf H. unfold unpack_pubrec in H.
+  destruct body as [|m1 [|m2 [|x r]]]; run_in H; try discriminate H.
+  finish H.
+Qed.
+
+Lemma pubrel_both body p : wf_bytes body ->
+  unpack_pubrel body = Ok p -> both 16 body p.
+Proof.
+  intros Hwf H. unfold unpack_pubrel in H.
+  destruct body as [|m1 [|m2 [|x r]]]; run_in H; try discriminate H.
+  finish H.
+Qed.
+
+Lemma suback_both body p : wf_bytes body ->
+  unpack_suback body = Ok p -> both 19 body p.
+Proof.
+  intros Hwf H. unfold unpack_suback in H.
+  destruct body as [|f [|t1 [|t2 [|m1 [|m2 [|rc [|x r]]]]]]]; run_in H; try discriminate H.
+  finish H.
+Qed.
+
+Lemma unsuback_both body p : wf_bytes body ->
+  unpack_unsuback body = Ok p -> both 21 body p.
+Proof.
+  intros Hwf H. unfold unpack_unsuback in H.
+  destruct body as [|m1 [|m2 [|x r]]]; run_in H; try discriminate H.
+  finish H.
+Qed.
+
+Lemma pingreq_both body p : wf_bytes body ->
+  unpack_pingreq body = Ok p -> both 22 body p.
+Proof.
+  intros Hwf H. unfold unpack_pingreq in H. finish H.
+Qed.
+
+Lemma pingresp_both body p : wf_bytes body ->
+  unpack_pingresp body = Ok p -> both 23 body p.
+Proof.
+  intros Hwf H. unfold unpack_pingresp in H.
+  destruct body as [|b0 r]; run_in H; try discriminate H.
+  finish H.
+Qed.
+
+Lemma willtopicupd_both body p : wf_bytes body ->
+  unpack_willtopicupd body = Ok p -> both 26 body p.
+Proof.
+  intros Hwf H. unfold unpack_willtopicupd in H.
+  destruct body as [|f [|c topic]]; run_in H; try discriminate H.
+  - finish H.
+  - wf_split. injection H as <-. split; [ref_side|].
+    intros Hlen; rewrite ?len_cons in Hlen.
+    cbn [pack]. rewrite varpart_pos by (rewrite ?len_cons; unfold u16; lia).
+    apply ref_split_hdr_eq; [reflexivity|rewrite ?len_cons; unfold u16; lia|].
+    rewrite will_flags by assumption. reflexivity.
+Qed.
+
+Lemma willtopicresp_both body p : wf_bytes body ->
+  unpack_willtopicresp body = Ok p -> both 27 body p.
+Proof.
+  intros Hwf H. unfold unpack_willtopicresp in H.
+  destruct body as [|b0 [|b1 r]]; run_in H; try discriminate H.
+  finish H.
+Qed.
+
+Lemma willmsgupd_both body p : wf_bytes body ->
+  unpack_willmsgupd body = Ok p -> both 28 body p.
+Proof.
+  intros Hwf H. unfold unpack_willmsgupd in H. finish H.
+Qed.
+
+Lemma willmsgresp_both body p : wf_bytes body ->
+  unpack_willmsgresp body = Ok p -> both 29 body p.
+Proof.
+  intros Hwf H. unfold unpack_willmsgresp in H.
+  destruct body as [|b0 [|b1 r]]; run_in H; try discriminate H.
+  finish H.
+Qed.
+
+Lemma disconnect_both body p : wf_bytes body ->
+  unpack_disconnect body = Ok p -> both 24 body p.
+Proof.
+  intros Hwf H. unfold unpack_disconnect in H.
+  destruct body as [|d1 [|d2 [|x r]]]; run_in H; try discriminate H.
+  - finish H.
+  - wf_split. injection H as <-. split; [ref_side|].
+    intros _.
+    cbn [pack]. destruct (N.eqb_spec (u16 (be16 d1 d2)) 0) as [E|E].
+    + assert (E1 : d1 = 0) by (unfold u16, be16 in E; lia).
+      assert (E2 : d2 = 0) by (unfold u16, be16 in E; lia).
+      subst d1 d2. apply ref_split_hdr0; reflexivity.
+    + apply ref_split_hdr_eq; [reflexivity|reflexivity|].
+      rewrite enc16w_be16 by assumption.
+      destruct d1 as [|q1]; [destruct d2 as [|q2]; [exfalso; apply E; reflexivity|]|]; reflexivity.
+Qed.
+
+Lemma subscribe_both body p : wf_bytes body ->
+  unpack_subscribe body = Ok p -> both 18 body p.
+Proof.
+  intros Hwf H. unfold unpack_subscribe, TIT_STRING, TIT_PREDEFINED, TIT_SHORT in H.
+  destruct body as [|f [|m1 [|m2 [|c rest]]]]; run_in H; try discriminate H.
+  wf_split.
+  assert (Hc : f mod 4 = 0 \/ f mod 4 = 1 \/ f mod 4 = 2 \/ f mod 4 = 3) by lia.
+  destruct Hc as [E|[E|[E|E]]]; rewrite E in H; cbn [N.eqb Pos.eqb orb] in H;
+    try discriminate H.
+  - injection H as <-. split.
+    + cbn [ref_body]. rewrite <- (mod4_tit f) by assumption. rewrite E.
+      rewrite be16_w16, bit128_dup, div32_qos by assumption. reflexivity.
+    + intros Hlen; rewrite ?len_cons in Hlen.
+      cbn [pack N.eqb Pos.eqb orb TIT_STRING TIT_PREDEFINED TIT_SHORT].
+      apply ref_split_hdr_eq; [reflexivity|rewrite ?len_cons; unfold u16; lia|].
+      rewrite enc16w_be16 by assumption.
+      cbn [mask_ignored has_flags flags_mask N.eqb Pos.eqb orb].
+      rewrite <- (subscribe_flags f) by assumption. rewrite E. reflexivity.
+  - destruct rest as [|c2 [|c3 r]]; run_in H; try discriminate H.
+    wf_split. injection H as <-. split.
+    + cbn [ref_body]. rewrite <- (mod4_tit f) by assumption. rewrite E.
+      rewrite !be16_w16, bit128_dup, div32_qos by assumption. reflexivity.
+    + intros Hlen; rewrite ?len_cons in Hlen.
+      cbn [pack N.eqb Pos.eqb orb TIT_STRING TIT_PREDEFINED TIT_SHORT].
+      apply ref_split_hdr_eq; [reflexivity|reflexivity|].
+      rewrite !enc16w_be16 by assumption.
+      cbn [mask_ignored has_flags flags_mask N.eqb Pos.eqb orb].
+      rewrite <- (subscribe_flags f) by assumption. rewrite E. reflexivity.
+  - destruct rest as [|c2 [|c3 r]]; run_in H; try discriminate H.
+    wf_split. injection H as <-. split.
+    + cbn [ref_body]. rewrite <- (mod4_tit f) by assumption. rewrite E.
+      rewrite !be16_w16, bit128_dup, div32_qos by assumption. reflexivity.
+    + intros Hlen; rewrite ?len_cons in Hlen.
+      cbn [pack N.eqb Pos.eqb orb TIT_STRING TIT_PREDEFINED TIT_SHORT].
+      apply ref_split_hdr_eq; [reflexivity|reflexivity|].
+      rewrite !enc16w_be16 by assumption.
+      cbn [mask_ignored has_flags flags_mask N.eqb Pos.eqb orb].
+      rewrite <- (subscribe_flags f) by assumption. rewrite E. reflexivity.
+Qed.
+
+Lemma unsubscribe_both body p : wf_bytes body ->
+  unpack_unsubscribe body = Ok p -> both 20 body p.
+Proof.
+  intros Hwf H. unfold unpack_unsubscribe, TIT_STRING, TIT_PREDEFINED, TIT_SHORT in H.
+  destruct body as [|f [|m1 [|m2 [|c rest]]]]; run_in H; try discriminate H.
+  wf_split.
+  assert (Hc : f mod 4 = 0 \/ f mod 4 = 1 \/ f mod 4 = 2 \/ f mod 4 = 3) by lia.
+  destruct Hc as [E|[E|[E|E]]]; rewrite E in H; cbn [N.eqb Pos.eqb orb] in H;
+    try discriminate H.
+  - injection H as <-. split.
+    + cbn [ref_body]. rewrite <- (mod4_tit f) by assumption. rewrite E.
+      rewrite be16_w16. reflexivity.
+    + intros Hlen; rewrite ?len_cons in Hlen.
+      cbn [pack N.eqb Pos.eqb orb TIT_STRING TIT_PREDEFINED TIT_SHORT].
+      apply ref_split_hdr_eq; [reflexivity|rewrite ?len_cons; unfold u16; lia|].
+      rewrite enc16w_be16 by assumption.
+      cbn [mask_ignored has_flags flags_mask N.eqb Pos.eqb orb].
+      rewrite <- (unsubscribe_flags f) by assumption. rewrite E. reflexivity.
+  - destruct rest as [|c2 [|c3 r]]; run_in H; try discriminate H.
+    wf_split. injection H as <-. split.
+    + cbn [ref_body]. rewrite <- (mod4_tit f) by assumption. rewrite E.
+      rewrite !be16_w16. reflexivity.
+    + intros Hlen; rewrite ?len_cons in Hlen.
+      cbn [pack N.eqb Pos.eqb orb TIT_STRING TIT_PREDEFINED TIT_SHORT].
+      apply ref_split_hdr_eq; [reflexivity|reflexivity|].
+      rewrite !enc16w_be16 by assumption.
+      cbn [mask_ignored has_flags flags_mask N.eqb Pos.eqb orb].
+      rewrite <- (unsubscribe_flags f) by assumption. rewrite E. reflexivity.
+  - destruct rest as [|c2 [|c3 r]]; run_in H; try discriminate H.
+    wf_split. injection H as <-. split.
+    + cbn [ref_body]. rewrite <- (mod4_tit f) by assumption. rewrite E.
+      rewrite !be16_w16. reflexivity.
+    + intros Hlen; rewrite ?len_cons in Hlen.
+      cbn [pack N.eqb Pos.eqb orb TIT_STRING TIT_PREDEFINED TIT_SHORT].
+      apply ref_split_hdr_eq; [reflexivity|reflexivity|].
+      rewrite !enc16w_be16 by assumption.
+      cbn [mask_ignored has_flags flags_mask N.eqb Pos.eqb orb].
+      rewrite <- (unsubscribe_flags f) by assumption. rewrite E. reflexivity.
+Qed.
+
+Lemma auth_both body p : wf_bytes body ->
+  unpack_auth body = Ok p -> both 3 body p.
+Proof.
+  intros Hwf. unfold unpack_auth, lenb, both.
+  destruct body as [|r [|ml rest]];
+    [cbn [length Nat.ltb Nat.leb]; intros H; discriminate H
+    |cbn [length Nat.ltb Nat.leb]; intros H; discriminate H|].
+  wf_split.
+  cbn [ref_body].
+  set (buf := r :: ml :: rest).
+  assert (Hl : length buf = S (S (length rest))) by reflexivity.
+  destruct (Nat.ltb_spec (length buf) 2) as [Hc|_]; [lia|].
+  change (idx buf 0 PsBodySlice) with (Ok r). change (idx buf 1 PsBodySlice) with (Ok ml).
+  cbn [obind]. cbv zeta.
+  remember (N.to_nat ml) as k eqn:Ek.
+  destruct (Nat.ltb_spec (length buf) (2 + k)) as [Hc|Hk]; [intros H; discriminate H|].
+  unfold slice, slice_from.
+  destruct (Nat.leb_spec 2 (2 + k)) as [_|Hc]; [|lia].
+  destruct (Nat.leb_spec (2 + k) (length buf)) as [_|Hc]; [|lia].
+  cbn [andb obind].
+  replace (2 + k - 2)%nat with k by lia.
+  change (skipn 2 buf) with rest. change (skipn (2 + k) buf) with (skipn k rest).
+  intros H. injection H as <-.
+  split.
+  - destruct (Nat.leb_spec k (length rest)) as [_|Hc]; [reflexivity|lia].
+  - intros Hlen; unfold buf in Hlen; rewrite ?len_cons in Hlen.
+    cbn [pack].
+    assert (Hm : len (firstn k rest) = ml).
+    { unfold len. rewrite firstn_length_le by lia. rewrite Ek. apply N2Nat.id. }
+    assert (Hd : ml + len (skipn k rest) = len rest).
+    { rewrite <- Hm, <- len_app, firstn_skipn. reflexivity. }
+    rewrite Hm, firstn_skipn.
+    apply ref_split_hdr_eq; [reflexivity|unfold u16; lia|].
+    rewrite !u8_small by assumption. reflexivity.
+Qed.
+
+Lemma unpack_body_both (t : N) (body : bytes) (p : packet) :
+  wf_bytes body -> unpack_body t body = Ok p -> both t body p.
+Proof.
+  intros Hwf. unfold unpack_body.
+  destruct (N.eqb_spec t T_ADVERTISE) as [->|_]; [apply advertise_both; assumption|].
+  destruct (N.eqb_spec t T_SEARCHGW) as [->|_]; [apply searchgw_both; assumption|].
+  destruct (N.eqb_spec t T_GWINFO) as [->|_]; [apply gwinfo_both; assumption|].
+  destruct (N.eqb_spec t T_AUTH) as [->|_]; [apply auth_both; assumption|].
+  destruct (N.eqb_spec t T_CONNECT) as [->|_]; [apply connect_both; assumption|].
+  destruct (N.eqb_spec t T_CONNACK) as [->|_]; [apply connack_both; assumption|].
+  destruct (N.eqb_spec t T_WILLTOPICREQ) as [->|_]; [apply willtopicreq_both; assumption|].
+  destruct (N.eqb_spec t T_WILLTOPIC) as [->|_]; [apply willtopic_both; assumption|].
+  destruct (N.eqb_spec t T_WILLMSGREQ) as [->|_]; [apply willmsgreq_both; assumption|].
+  destruct (N.eqb_spec t T_WILLMSG) as [->|_]; [apply willmsg_both; assumption|].
+  destruct (N.eqb_spec t T_REGISTER) as [->|_]; [apply register_both; assumption|].
+  destruct (N.eqb_spec t T_REGACK) as [->|_]; [apply regack_both; assumption|].
+  destruct (N.eqb_spec t T_PUBLISH) as [->|_]; [apply publish_both; assumption|].
+  destruct (N.eqb_spec t T_PUBACK) as [->|_]; [apply puback_both; assumption|].
+  destruct (N.eqb_spec t T_PUBCOMP) as [->|_]; [apply pubcomp_both; assumption|].
+  destruct (N.eqb_spec t T_PUBREC) as [->|_]; [apply pubrec_both; assumption|].
+  destruct (N.eqb_spec t T_PUBREL) as [->|_]; [apply pubrel_both; assumption|].
+  destruct (N.eqb_spec t T_SUBSCRIBE) as [->|_]; [apply subscribe_both; assumption|].
+  destruct (N.eqb_spec t T_SUBACK) as [->|_]; [apply suback_both; assumption|].
+  destruct (N.eqb_spec t T_UNSUBSCRIBE) as [->|_]; [apply unsubscribe_both; assumption|].
+  destruct (N.eqb_spec t T_UNSUBACK) as [->|_]; [apply unsuback_both; assumption|].
+  destruct (N.eqb_spec t T_PINGREQ) as [->|_]; [apply pingreq_both; assumption|].
+  destruct (N.eqb_spec t T_PINGRESP) as [->|_]; [apply pingresp_both; assumption|].
+  destruct (N.eqb_spec t T_DISCONNECT) as [->|_]; [apply disconnect_both; assumption|].
+  destruct (N.eqb_spec t T_WILLTOPICUPD) as [->|_]; [apply willtopicupd_both; assumption|].
+  destruct (N.eqb_spec t T_WILLTOPICRESP) as [->|_]; [apply willtopicresp_both; assumption|].
+  destruct (N.eqb_spec t T_WILLMSGUPD) as [->|_]; [apply willmsgupd_both; assumption|].
+  destruct (N.eqb_spec t T_WILLMSGRESP) as [->|_]; [apply willmsgresp_both; assumption|].
+  intros H. discriminate H.
+Qed.
+
+(* ------------------------------------------------------------------ header *)
+
+(* ReadPacket and the reference splitter cut the datagram at the same place *)
+Lemma read_packet_split (dg : bytes) (p : packet) :
+  read_packet dg = Ok p ->
+  exists t body pre,
+    ref_split dg = Some (t, body) /\ unpack_body t body = Ok p /\
+    dg = pre ++ body /\ (2 <= length pre)%nat.
+Proof.
+  unfold read_packet, header_unpack.
+  destruct dg as [|b0 [|b1 rest]];
+    [cbn [length Nat.ltb Nat.leb obind]; intros H; discriminate H
+    |cbn [length Nat.ltb Nat.leb obind]; intros H; discriminate H|].
+  cbn [length Nat.ltb Nat.leb obind idx nth_error encoded_header_length ref_split].
+  destruct (N.eqb_spec b0 1) as [->|Hb0].
+  - destruct rest as [|b2 [|b3 body]];
+      [cbn [length Nat.ltb Nat.leb obind]; intros H; discriminate H
+      |cbn [length Nat.ltb Nat.leb obind]; intros H; discriminate H|].
+    cbn [length Nat.ltb Nat.leb obind idx get16 nth_error h_type slice_from skipn].
+    destruct (known_type b3); cbn [negb]; [|intros H; discriminate H].
+    cbn [obind]. intros H. exists b3, body, [1; b1; b2; b3].
+    repeat split; [exact H|cbn [length]; lia].
+  - cbn [obind h_type length Nat.leb slice_from skipn].
+    destruct (known_type b1); cbn [negb]; [|intros H; discriminate H].
+    cbn [obind]. intros H. exists b1, rest, [b0; b1].
+    repeat split; [exact H|cbn [length]; lia].
+Qed.
+
+(* ------------------------------------------------------------------ C22 *)
+
+Lemma read_packet_both (dg : bytes) (p : packet) :
+  wf_bytes dg -> read_packet dg = Ok p ->
+  exists t body pre, ref_split dg = Some (t, body) /\ both t body p /\
+                     dg = pre ++ body /\ (2 <= length pre)%nat.
+Proof.
+  intros Hwf H. apply read_packet_split in H.
+  destruct H as [t [body [pre [Hs [Hu [Hdg Hpre]]]]]].
+  exists t, body, pre. repeat split; try assumption.
+  - apply (unpack_body_both t body p); [|exact Hu].
+    rewrite Hdg in Hwf. apply wf_app_inv in Hwf. apply Hwf.
+  - apply (unpack_body_both t body p); [|exact Hu].
+    rewrite Hdg in Hwf. apply wf_app_inv in Hwf. apply Hwf.
+Qed.
+
+(* every successfully decoded packet carries the values at the specified byte positions *)
+Lemma read_packet_ref_parse : forall (dg : bytes) (p : packet),
+  wf_bytes dg -> read_packet dg = Ok p -> ref_parse dg = Some p.
+Proof.
+  intros dg p Hwf H. destruct (read_packet_both dg p Hwf H) as [t [body [pre [Hs [[Hr _] _]]]]].
+  unfold ref_parse. rewrite Hs. exact Hr.
+Qed.
+
+(* re-encoding reproduces type and body, up to flag bits the type ignores and a DISCONNECT
+   duration of zero *)
+Lemma repack_reproduces : forall (dg : bytes) (p : packet),
+  wf_bytes dg -> (length dg <= N.to_nat MaxPacketLen)%nat -> read_packet dg = Ok p ->
+  exists t body, ref_split dg = Some (t, body) /\ ref_split (pack p) = Some (t, mask_ignored t body).
+Proof.
+  intros dg p Hwf Hlen H.
+  destruct (read_packet_both dg p Hwf H) as [t [body [pre [Hs [[_ Hp] [Hdg Hpre]]]]]].
+  exists t, body. split; [exact Hs|]. apply Hp.
+  rewrite Hdg, app_length in Hlen. unfold MaxPacketLen in Hlen. unfold len. lia.
+Qed.
+
+(* the extracted checker accepts the model's own behaviour *)
+Lemma chk_C22_sound : forall (dg : bytes) (p : packet),
+  wf_bytes dg -> (length dg <= N.to_nat MaxPacketLen)%nat -> read_dgram dg = Ok p ->
+  chk_C22 dg p (pack p) = [].
+Proof.
+  intros dg p Hwf Hlen H. unfold read_dgram in H. rewrite firstn_all2 in H by exact Hlen.
+  unfold chk_C22.
+  rewrite (read_packet_ref_parse dg p Hwf H), pkt_eqb_refl.
+  destruct (repack_reproduces dg p Hwf Hlen H) as [t [body [Hs Hp]]].
+  rewrite Hs, Hp, N.eqb_refl, beq_refl. reflexivity.
+Qed.
+
+Print Assumptions read_packet_ref_parse.
+Print Assumptions repack_reproduces.
+Print Assumptions chk_C22_sound.
